@@ -66,7 +66,7 @@ mod verif_kani {
     //@harness props=C20,C12 kind=bounded tier=thorough fns=RuleMetadata::should_apply bound="exactly 3 apply filters and 3 skip filters, abstract match relation: one symbolic-but-fixed boolean per filter" budget=900
     //@ desc="deeper bound: should_apply(path) <==> some apply filter matches and no skip filter matches"
     #[kani::proof]
-    #[kani::unwind(6)]
+    #[kani::unwind(10)]
     #[kani::stub(FilterPattern::matches, FilterPattern::verif_abstract_matches)]
     fn vk_rules_should_apply_t() {
         let m: [bool; 8] = kani::any();
